@@ -19,8 +19,9 @@ Nothing here imports py_gql: the expectation is built from the derivation alone.
 Leaf lexemes (names, scalar literals, descriptions, operation keywords, directive locations) are not
 separate derivations -- that would multiply the corpus by ~10 per leaf without adding a shape --
 they *rotate*: the k-th leaf of a document takes entry (seed + k) of its pool, so neighbouring
-leaves always differ (order bugs are visible) and running seeds 0..ROTATIONS-1 puts every pool
-entry at every leaf position.
+leaves always differ (order bugs are visible); running seeds 0..ROTATIONS-1 puts every literal
+form at every leaf position and the lexeme inside a form advances with the derivation index
+(`leaf_seed`).
 """
 from mc.ref import strings as RS
 
@@ -606,7 +607,7 @@ DEFAULTS = {
 
 NAME_POOLS = {
     # every keyword the parser dispatches on is a legal Name in these positions
-    "any": ["a", "b", "on", "query", "c_1", "type", "true", "fragment", "null", "implements", "_", "extend", "input", "Z9"],
+    "any": ["a", "b", "on", "query", "c_1", "type", "true", "fooBar", "fragment", "null", "implements", "_", "snake_case", "extend", "input", "Z9"],
     "frag": ["F", "G", "query", "fragment", "true", "type", "H_2"],  # FragmentName: Name but not `on`
     "type": ["T", "U", "Int", "on", "query", "implements", "type", "extend", "V"],
     "enum": ["A", "B", "on", "query", "type", "extend", "RED"],  # EnumValue: Name but not true/false/null
@@ -624,20 +625,29 @@ FLOATS = ["1.5", "-0.0", "1e3", "1E-2", "0.10e+10", "-12.50E1", "0e0"]
 ENUMS = ["RED", "on", "query", "type", "x"]
 # raw bodies (between the quotes), values come from ref/strings.py
 QUOTED = ["", "a", "\\u00e9\\n\\\"\\\\", "é 😀", "#not,a comment", " lead", "\\ud83d\\ude00\\/\\b\\f\\r\\t", "\\u000A", "}"]
-BLOCKS = ["", "a", "\n  a\n   b\n", ' \\""" x', "a\r\n  b\r  c", "  lead", '""', "\n\n\tx\n\n", "é😀 \\n"]
+BLOCKS = ["", "a", "\n  a\n   b\n", ' \\""" x', "a\r\n  b\r  c", "  lead", '"" x', "\n\n\tx\n\n", "é😀 \\n"]
 
 VALUE_FORMS = ["Int", "Float", "String", "Block", "true", "false", "null", "Enum", "EmptyList", "EmptyObject"]
 DESC_FORMS = ["String", "Block"]
 
-# number of seeds after which every pool entry has been at every leaf position
-ROTATIONS = 19
+# number of consecutive seeds after which every literal FORM has been at every leaf position
+ROTATIONS = len(VALUE_FORMS)
+
+
+def leaf_seed(i, s=0):
+    """
+    seed for rotation s of derivation i: the form of the k-th leaf is (s + k) mod ROTATIONS, its lexeme
+    index advances with the derivation index, so over the corpus every lexeme of every pool occurs in
+    every position although one derivation only sees ROTATIONS of them.
+    """
+    return s + ROTATIONS * i
 
 
 def _leaf(pool, k):
     """-> Term for the k-th rotation of a leaf of this pool"""
     forms = VALUE_FORMS if pool == "value" else DESC_FORMS
     form = forms[k % len(forms)]
-    j = k // len(forms) + k  # second index decorrelated from the form index
+    j = k // len(forms)  # lexeme index: advances once per full cycle of forms (see leaf_seed)
     if form == "Int":
         return Term("IntValue", {}, [Tok("Int", INTS[j % len(INTS)], bind="value")])
     if form == "Float":
@@ -756,6 +766,10 @@ def walk(tree, path=()):
 
 
 def selftest():
+    for body in QUOTED:
+        assert RS.decode_quoted(body) is not None, body
+    for body in BLOCKS:
+        assert RS.decode_block(body) is not None, body
     # counts are stable and unrank is a bijection onto distinct token sequences (small sizes)
     for dialect in DIALECTS:
         seen = set()
